@@ -128,6 +128,7 @@ type c10State struct {
 	calls  []*c10Call
 	keyOcc map[string]int
 	tagOrder bool // judge the completion order of pipelined Tag requests (C09)
+	pipeFids []uint32 // fids on which a Tag pipeline of several request kinds is running
 	gs     []*rt.G
 }
 
@@ -375,6 +376,18 @@ func (st *c10State) runCallerOps(ci int, ops []Op, late bool) {
 			tag := clnt.TagAlloc(ch)
 			var cls []*c10Call
 			pending := 0
+			if len(op.A) > 4 && st.tagOrder && op.a(4)%2 == 1 {
+				// a request of another kind goes first under the same tag: it completes first
+				// (the scripted server answers everything on this fid at once, in arrival order)
+				st.pipeFids = append(st.pipeFids, fid.Fid)
+				cl := st.begin(ci, i, "tagstat", fmt.Sprintf("%d/%d", Tstat, fid.Fid), late)
+				cls = append(cls, cl)
+				if err := tag.Stat(fid); err != nil {
+					cl.end(err, "")
+				} else {
+					pending++
+				}
+			}
 			for j := 0; j < n; j++ {
 				off := uint64(1)<<40 + uint64(op.a(0))<<20 + uint64(j)*4096
 				if len(op.A) > 4 && st.tagOrder {
@@ -402,7 +415,7 @@ func (st *c10State) runCallerOps(ci int, ops []Op, late bool) {
 				rt.Yield(rt.SiteActor)
 				var cl *c10Call
 				for _, k := range cls {
-					if !k.Returned && r.Tc != nil && k.Key == fmt.Sprintf("%d/%d/%d", Tread, r.Tc.Fid, r.Tc.Offset) {
+					if !k.Returned && r.Tc != nil && (k.Key == fmt.Sprintf("%d/%d/%d", Tread, r.Tc.Fid, r.Tc.Offset) || (r.Tc.Type == go9p.Tstat && k.Key == fmt.Sprintf("%d/%d", Tstat, r.Tc.Fid))) {
 						cl = k
 						break
 					}
@@ -420,6 +433,13 @@ func (st *c10State) runCallerOps(ci int, ops []Op, late bool) {
 					}
 				}
 				err, bad := r.Err, ""
+				if r.Tc.Type == go9p.Tstat {
+					if err == nil && (r.Rc == nil || r.Rc.Type != go9p.Rstat || r.Rc.Dir.Name != statFor(fid.Fid).Name) {
+						bad = "pipelined stat completed with something that is not this request's reply"
+					}
+					cl.end(err, bad)
+					continue
+				}
 				if flagged := r.Tc.Offset&(markErr|markWrong) != 0; flagged && st.tagOrder {
 					// the server refused this one / answered it with the wrong type: it must complete with an error
 					if err == nil {
@@ -444,6 +464,12 @@ func (st *c10State) runCallerOps(ci int, ops []Op, late bool) {
 			}
 			rt.Yield(rt.SiteActor)
 			clnt.TagFree(tag)
+			for k, f := range st.pipeFids {
+				if f == fid.Fid {
+					st.pipeFids = append(st.pipeFids[:k], st.pipeFids[k+1:]...)
+					break
+				}
+			}
 			rt.Yield(rt.SiteActor)
 		case "stat":
 			cl := st.begin(ci, i, "stat", fmt.Sprintf("%d/%d", Tstat, fid.Fid), late)
